@@ -42,63 +42,94 @@ Proof. unfold replay. apply fold_left_app. Qed.
 
 Lemma legal_app st l e :
   legal st (l ++ [e]) <->
-  legal st l /\ e_res e = spec_result (replay st (map e_req l)) (e_req e) /\ is_mut (e_req e) = true.
+  legal st l /\ entry_ok (replay st l) e /\ is_mut (e_req e) = true.
 Proof.
   revert st. induction l as [|x t IH]; intros st; cbn.
   - tauto.
   - rewrite IH. tauto.
 Qed.
 
-Lemma replay_cons st r l : replay st (r :: l) = replay (spec_apply st r) l.
+Lemma replay_cons st e l : replay st (e :: l) = replay (entry_apply st e) l.
 Proof. reflexivity. Qed.
 
-Lemma is_ok_fail e c : e_res e = RFail c -> is_ok e = false.
-Proof. unfold is_ok. intros ->. reflexivity. Qed.
-Lemma is_ok_ok e c v : e_res e = ROk c v -> is_ok e = true /\ ver_of e = v.
-Proof. unfold is_ok, ver_of. intros ->. auto. Qed.
+(** the four kinds of logged entries *)
+Inductive entry_kind (st : store) (e : entry) : Prop :=
+| EkFail c : e_res e = RFail c -> entry_apply st e = st -> is_ok e = false -> has_effect e = false ->
+             entry_kind st e
+| EkOk : e_res e = ROk (code_of (e_req e)) (snd st + 1) ->
+         entry_apply st e = (apply_objs (e_req e) (fst st), snd st + 1) ->
+         is_ok e = true -> has_effect e = true -> ver_of e = snd st + 1 ->
+         precheck (fst st) (e_req e) = None -> entry_kind st e
+| EkPartial : e_res e = RErr true ->
+         entry_apply st e = (apply_objs (e_req e) (fst st), snd st) ->
+         is_ok e = false -> has_effect e = true ->
+         precheck (fst st) (e_req e) = None -> entry_kind st e
+| EkNone : e_res e = RErr false -> entry_apply st e = st -> is_ok e = false -> has_effect e = false ->
+         entry_kind st e.
+
+Lemma entry_cases st e : entry_ok st e -> is_mut (e_req e) = true -> entry_kind st e.
+Proof.
+  intros Hok Hm. pose proof (spec_result_mut st _ Hm) as Hs.
+  unfold entry_ok in Hok. unfold entry_apply, is_ok, has_effect, ver_of.
+  destruct (e_res e) as [c v|c|o|[|]|] eqn:Er.
+  - destruct (precheck (fst st) (e_req e)) eqn:Ep; destruct Hs as (Hs1 & Hs2); rewrite Hs1 in Hok; inversion Hok; subst.
+    apply EkOk; unfold entry_apply, is_ok, has_effect, ver_of; rewrite ?Er; auto.
+  - destruct (precheck (fst st) (e_req e)) eqn:Ep; destruct Hs as (Hs1 & Hs2); rewrite Hs1 in Hok; inversion Hok; subst.
+    eapply EkFail; unfold entry_apply, is_ok, has_effect; rewrite ?Er; eauto.
+  - exfalso. destruct (precheck (fst st) (e_req e)); destruct Hs as (Hs1 & _); rewrite Hs1 in Hok; discriminate.
+  - apply EkPartial; unfold entry_apply, is_ok, has_effect; rewrite ?Er; auto.
+  - apply EkNone; unfold entry_apply, is_ok, has_effect; rewrite ?Er; auto.
+  - exfalso. destruct (precheck (fst st) (e_req e)); destruct Hs as (Hs1 & _); rewrite Hs1 in Hok; discriminate.
+Qed.
 
 Lemma legal_versions l : forall st, legal st l ->
   map ver_of (filter is_ok l) = zseq (snd st + 1) (List.length (filter is_ok l)) /\
-  snd (replay st (map e_req l)) = snd st + Z.of_nat (List.length (filter is_ok l)).
+  snd (replay st l) = snd st + Z.of_nat (List.length (filter is_ok l)).
 Proof.
   induction l as [|e t IH]; intros st H.
   - cbn. split; [reflexivity|lia].
   - cbn in H. destruct H as (Hr & Hm & Hl). specialize (IH _ Hl).
-    cbn [filter map]. rewrite replay_cons.
-    pose proof (spec_result_mut st _ Hm) as Hs.
-    destruct (precheck (fst st) (e_req e)) as [c|]; destruct Hs as (Hs1 & Hs2); rewrite Hs1 in Hr.
-    + rewrite (is_ok_fail _ _ Hr). rewrite Hs2 in *. exact IH.
-    + destruct (is_ok_ok _ _ _ Hr) as (Ho & Hv). rewrite Ho. rewrite Hs2 in *. cbn [snd] in IH.
-      destruct IH as (IH1 & IH2). cbn [List.length map zseq]. rewrite Hv. split.
-      * f_equal. exact IH1.
-      * rewrite IH2. lia.
+    cbn [filter]. rewrite replay_cons.
+    destruct (entry_cases _ _ Hr Hm) as [c E Ea Ho He|E Ea Ho He Hv Hp|E Ea Ho He Hp|E Ea Ho He];
+      rewrite Ho; rewrite Ea in *; cbn [snd] in IH; try exact IH.
+    destruct IH as (IH1 & IH2). cbn [List.length map zseq]. rewrite Hv. split.
+    + f_equal. exact IH1.
+    + rewrite IH2. lia.
 Qed.
 
-(** failed entries contribute nothing: the replay of the whole log is the replay of its successes *)
-Lemma replay_filter_ok l : forall st, legal st l ->
-  replay st (map e_req l) = replay st (map e_req (filter is_ok l)).
+(** entries without effect contribute nothing: the replay of the whole log is the replay of the
+    successes and of the handlers cut short after their object write *)
+Lemma replay_filter_effect l : forall st, legal st l ->
+  replay st l = replay st (filter has_effect l).
 Proof.
   induction l as [|e t IH]; intros st H; [reflexivity|].
   cbn in H. destruct H as (Hr & Hm & Hl). specialize (IH _ Hl).
-  cbn [filter map]. rewrite replay_cons.
-  pose proof (spec_result_mut st _ Hm) as Hs.
-  destruct (precheck (fst st) (e_req e)) as [c|]; destruct Hs as (Hs1 & Hs2); rewrite Hs1 in Hr.
-  - rewrite (is_ok_fail _ _ Hr). rewrite Hs2 in *. exact IH.
-  - destruct (is_ok_ok _ _ _ Hr) as (Ho & Hv). rewrite Ho. cbn [map]. rewrite replay_cons. exact IH.
+  cbn [filter]. rewrite replay_cons.
+  destruct (entry_cases _ _ Hr Hm) as [c E Ea Ho He|E Ea Ho He Hv Hp|E Ea Ho He Hp|E Ea Ho He];
+    rewrite He; try rewrite replay_cons; rewrite Ea in *; exact IH.
 Qed.
 
-(** the successes alone are a legal history too (so "apply the successful requests in
-    version order" is well defined: each of them succeeds again) *)
-Lemma legal_filter_ok l : forall st, legal st l -> legal st (filter is_ok l).
+Lemma legal_filter_effect l : forall st, legal st l -> legal st (filter has_effect l).
 Proof.
   induction l as [|e t IH]; intros st H; [exact I|].
   cbn in H. destruct H as (Hr & Hm & Hl). specialize (IH _ Hl).
   cbn [filter].
-  pose proof (spec_result_mut st _ Hm) as Hs.
-  destruct (precheck (fst st) (e_req e)) as [c|]; destruct Hs as (Hs1 & Hs2).
-  - rewrite Hs1 in Hr. rewrite (is_ok_fail _ _ Hr). rewrite Hs2 in *. exact IH.
-  - pose proof Hr as Hr'. rewrite Hs1 in Hr'. destruct (is_ok_ok _ _ _ Hr') as (Ho & Hv). rewrite Ho.
-    cbn. repeat split; auto.
+  destruct (entry_cases _ _ Hr Hm) as [c E Ea Ho He|E Ea Ho He Hv Hp|E Ea Ho He Hp|E Ea Ho He];
+    rewrite He.
+  - rewrite Ea in IH. exact IH.
+  - cbn [legal]. auto.
+  - cbn [legal]. auto.
+  - rewrite Ea in IH. exact IH.
+Qed.
+
+(** without cut-short handlers the effective entries are exactly the successes *)
+Lemma filter_effect_ok l :
+  (forall e, In e l -> e_res e <> RErr true) -> filter has_effect l = filter is_ok l.
+Proof.
+  induction l as [|e t IH]; intros H; [reflexivity|]. cbn [filter].
+  rewrite IH by (intros x Hx; apply H; right; exact Hx).
+  assert (He : e_res e <> RErr true) by (apply H; left; reflexivity).
+  unfold has_effect, is_ok. destruct (e_res e) as [| | |[|]|]; try reflexivity. congruence.
 Qed.
 
 Lemma zseq_length a n : List.length (zseq a n) = n.
@@ -134,7 +165,7 @@ Section Api.
 Variable cfg : tid -> thr.
 Variable st0 : store.
 
-Definition base (s : state) : store := replay st0 (map e_req (log s)).
+Definition base (s : state) : store := replay st0 (log s).
 
 Definition written (s : state) (t : tid) : Prop :=
   precheck (fst (base s)) (t_req (cfg t)) = None /\ is_mut (t_req (cfg t)) = true /\
@@ -165,14 +196,14 @@ Qed.
 (** steps other than handler steps: only the pc of the stepping thread changes, between
     classes that are irrelevant for the store *)
 Lemma other_step_shape q s t l s' :
-  l <> LCs -> l <> LRegrant -> step q cfg s t l = Some s' ->
+  l <> LCs -> l <> LRegrant -> l <> LFault -> step q cfg s t l = Some s' ->
   objs s' = objs s /\ ver s' = ver s /\ log s' = log s /\ reg s' = reg s /\
   exists p', pcs s' = upd (pcs s) t p' /\
     (forall k, p' <> PCs (S k)) /\ (forall k, pcs s t <> PCs (S k)) /\
     (forall r, fin_result (pcs s t) = Some r -> fin_result p' = Some r) /\
     (forall r, fin_result p' = Some r -> is_mut (t_req (cfg t)) = true -> fin_result (pcs s t) = Some r).
 Proof.
-  intros Hl Hr H. unfold step in H.
+  intros Hl Hr Hf H. unfold step in H.
   destruct l; try congruence; destruct (pcs s t) eqn:Ep; try discriminate;
   repeat match type of H with
   | (if ?c then _ else _) = _ => destruct c eqn:?; try discriminate
@@ -194,13 +225,13 @@ Proof.
 Qed.
 
 Lemma invS_other s t l s' :
-  l <> LCs -> InvS s -> step ideal cfg s t l = Some s' -> InvS s'.
+  l <> LCs -> l <> LFault -> InvS s -> step ideal cfg s t l = Some s' -> InvS s'.
 Proof.
-  intros Hl J H.
+  intros Hl Hlf J H.
   destruct (label_eq_dec l LRegrant) as [->|Hnr].
   { rewrite step_regrant_ideal in H. inversion H; subst; assumption. }
   pose proof (inv_step cfg _ _ _ _ (j_inv _ J) H) as I'.
-  destruct (other_step_shape _ _ _ _ _ Hl Hnr H) as (Eo & Ev & Elog & Ereg & p' & Epc & Hp & Ho & Hf1 & Hf2).
+  destruct (other_step_shape _ _ _ _ _ Hl Hnr Hlf H) as (Eo & Ev & Elog & Ereg & p' & Epc & Hp & Ho & Hf1 & Hf2).
   assert (Eb : base s' = base s) by (unfold base; rewrite Elog; reflexivity).
   assert (Hpc : forall t' k, pcs s' t' = PCs (S k) -> t' <> t /\ pcs s t' = PCs (S k)).
   { intros t' k E. rewrite Epc in E. unfold upd in E.
@@ -271,8 +302,8 @@ Proof.
     destruct (Nat.eqb_spec t' t); subst; auto. congruence.
 Qed.
 
-Lemma base_snoc s e : replay st0 (map e_req (log s ++ [e])) = spec_apply (base s) (e_req e).
-Proof. rewrite map_app, replay_app. reflexivity. Qed.
+Lemma base_snoc s e : replay st0 (log s ++ [e]) = entry_apply (base s) e.
+Proof. rewrite replay_app. reflexivity. Qed.
 
 Lemma others_not_in_cs s t :
   InvS s -> in_cs (pcs s t) = true -> forall t', t' <> t -> in_cs (pcs s t') = false.
@@ -422,7 +453,9 @@ Proof.
   pose proof (spec_result_mut (base s) rq Hmut) as Hs. fold rq in W1. rewrite W1 in Hs. destruct Hs as (Hs1 & Hs2).
   match goal with |- InvS ?S =>
     assert (Eb : base S = (objs s, reg s t + 1)) end.
-  { unfold base. cbn [log]. rewrite base_snoc. cbn [e_req fst snd]. rewrite Hs2, W5. fold rq in W3. rewrite <- W3. reflexivity. }
+  { unfold base. cbn [log]. rewrite base_snoc.
+    change (entry_apply (base s) (t, rq, ROk (code_of rq) (reg s t + 1))) with (spec_apply (base s) rq).
+    rewrite Hs2, W5. fold rq in W3. rewrite <- W3. reflexivity. }
   destruct (log_fields_finish s t _ (ROk (code_of rq) (reg s t + 1)) _ _ J Ep Hmut eq_refl eq_refl) as (L1 & L2 & L3).
   constructor; try rewrite Eb; cbn [objs ver log reg pcs].
   - assumption.
@@ -430,7 +463,7 @@ Proof.
   - intros t' E; apply (only_t s) in E; auto; destruct E; discriminate.
   - intros t' E; apply (only_t s) in E; auto; destruct E; discriminate.
   - intros t' E; apply (only_t s) in E; auto; destruct E; discriminate.
-  - apply legal_app; split; [apply J|split; [cbn [e_res e_req fst snd]; fold (base s); rewrite Hs1, W5; reflexivity|exact Hmut]].
+  - apply legal_app; split; [apply J|split; [unfold entry_ok; cbn [e_res e_req fst snd]; fold (base s); rewrite Hs1, W5; reflexivity|exact Hmut]].
   - exact L1.
   - exact L2.
   - exact L3.
@@ -469,11 +502,49 @@ Proof.
     + apply J.
 Qed.
 
+(** a failing cluster operation cuts the handler short: the object write stays if it was done,
+    the version is never written; the entry is logged with that effect *)
+Lemma invS_fault s t s' : InvS s -> step ideal cfg s t LFault = Some s' -> InvS s'.
+Proof.
+  intros J H.
+  pose proof (inv_step cfg _ _ _ _ (j_inv _ J) H) as I'.
+  unfold step in H. destruct (pcs s t) as [| | |k| | | |] eqn:Ep; try discriminate.
+  destruct (is_mut (t_req (cfg t))) eqn:Hmut; [|discriminate].
+  destruct (Nat.leb k 3) eqn:Hk; [|discriminate]. cbn [andb] in H.
+  inversion H; subst s'; clear H.
+  assert (Hcs : in_cs (pcs s t) = true) by (rewrite Ep; reflexivity).
+  set (rq := t_req (cfg t)) in *.
+  set (r := RErr (Nat.leb 2 k)).
+  assert (Hst : entry_ok (base s) (t, rq, r) /\ (objs s, ver s) = entry_apply (base s) (t, rq, r)).
+  { destruct k as [|[|[|[|k]]]]; try discriminate; unfold r, entry_ok, entry_apply; cbn [Nat.leb e_res e_req fst snd].
+    - split; [exact I|]. apply (j_base _ J). apply (all_not_mid s t); auto. rewrite Ep. reflexivity.
+    - split; [exact I|]. apply (j_base _ J). apply (all_not_mid s t); auto. rewrite Ep. reflexivity.
+    - destruct (j_2 _ J _ Ep) as (W1 & W2 & W3 & W4). fold rq in W1, W3. split; [exact W1|]. rewrite W3, W4. reflexivity.
+    - destruct (j_3 _ J _ Ep) as ((W1 & W2 & W3 & W4) & W5). fold rq in W1, W3. split; [exact W1|]. rewrite W3, W4. reflexivity. }
+  destruct Hst as (Hok & Hst).
+  assert (Eb : base (finish s t rq r) = (objs s, ver s)).
+  { unfold base. cbn [finish log]. rewrite base_snoc. symmetry. exact Hst. }
+  destruct (log_fields_finish s t _ r _ _ J Ep Hmut eq_refl eq_refl) as (L1 & L2 & L3).
+  change (InvS (finish s t rq r)). change (Inv cfg (finish s t rq r)) in I'.
+  constructor; try rewrite Eb; cbn [finish objs ver log reg pcs].
+  - assumption.
+  - intros _; reflexivity.
+  - intros t' E; apply (only_t s) in E; auto; destruct E; discriminate.
+  - intros t' E; apply (only_t s) in E; auto; destruct E; discriminate.
+  - intros t' E; apply (only_t s) in E; auto; destruct E; discriminate.
+  - apply legal_app; split; [apply J|split; [exact Hok|exact Hmut]].
+  - exact L1.
+  - exact L2.
+  - exact L3.
+Qed.
+
 Lemma invS_step s t l s' : InvS s -> step ideal cfg s t l = Some s' -> InvS s'.
 Proof.
   intros J H. destruct (label_eq_dec l LCs) as [->|Hne].
   - eapply invS_cs; eassumption.
-  - eapply invS_other; eassumption.
+  - destruct (label_eq_dec l LFault) as [->|Hnf].
+    + eapply invS_fault; eassumption.
+    + eapply invS_other; eassumption.
 Qed.
 
 Lemma invS_run sched : forall s s', InvS s -> run ideal cfg s sched = Some s' -> InvS s'.
